@@ -1,122 +1,402 @@
 """C04 cases: panic behaviour per build mode. Cross-cutting: re-uses the request vocabularies (and harness
-bins) of the other properties, with operands on both sides of every overflow / range boundary."""
+bins) of the other properties, with operands on both sides of every overflow / range boundary.
+
+Coverage (what the property names x where a request goes):
+  * operators `+ - * / %` in all six operand forms and their inherent const twins, unary `-` (3 forms), `<< >>`
+    with each of the twelve primitive amount types: the c17 bin on its 15 configurations (all forms), the c04 bin
+    (harness/src/bin/c04.rs) on every other configuration of the harness, up to the four 8192-bit ones;
+  * unsuffixed methods pow / abs / next_power_of_two / next_multiple_of / shl / shr, ilog family: c08 c01 c06 c03 c05;
+  * every `strict_*`, `checked_*`, `wrapping_*`, `overflowing_*`, `saturating_*` function of the crate (the complete
+    list of Props/C04.lean's coverage table): c01 c02 c03 c05 c06 c08.  Methods whose Rust body reaches
+    `cfg(debug_assertions)`-dependent code although their result does not depend on it (signed div family,
+    checked_next_multiple_of, checked_ilog*) are sent WITH a `dbg|rel` word wherever the c04 bin has the
+    configuration, so that the driver evaluates the model variant of the build that answers.
+Configurations: the quick list of gen/common.py + those of the c17 bin + the widest instantiation of every digit type
+(quick); all of them (thorough)."""
 import re
 from .common import *
 from .c02 import mul_pair
 from .c03 import div_pair
-from .c08 import pow_case, log_case
-from .c17 import QUICK17, CFGS17, PRIM, prim_amount
+from .c08 import pow_case, log_case, iroot
+from .c17 import CFGS17, QUICK17, FORMS, SFORMS, PRIM
 
-HARNESS_BINS = ["c01", "c02", "c03", "c05", "c06", "c08", "c17"]
-C17_RE = re.compile(r"^((add|sub|mul|div|rem)_(vv|as)|neg_v|(shl|shr)_[a-z0-9]+_(vv|as))$")
+HARNESS_BINS = ["c01", "c02", "c03", "c04", "c05", "c06", "c08", "c17"]
+# harness/src/bin/c04.rs `for_config04!`: the configurations of the harness that the c17 bin does not have
+CFGS04 = ["8x4", "8x7", "8x8", "8x9", "8x12", "8x16", "8x24", "8x40", "8x1024", "16x2", "16x5", "16x9", "16x12", "16x20", "16x512",
+          "32x1", "32x4", "32x6", "32x10", "32x12", "32x256", "64x4", "64x5", "64x8", "64x9", "64x12", "64x64", "64x128"]
+SFORMS04 = ["vv", "asr"]            # shift forms of the c04 bin
+_PRIMS = "|".join(PRIM)
+OPERATOR_RE = re.compile(r"^((add|sub|mul|div|rem)_(vv|vr|rv|rr|as|asr|inh)|neg_(v|r|inh)|(shl|shr)_(%s)_(vv|vr|rv|rr|as|asr)|(shl|shr)_u32_inh)$" % _PRIMS)
+_DIVS = ["div", "rem", "div_euclid", "rem_euclid"]
+# methods the c04 bin answers with a profile word
+MODE_METHODS = set(_DIVS + [p + "_" + d for p in ("strict", "checked", "wrapping", "overflowing") for d in _DIVS]
+                   + ["saturating_div", "checked_next_multiple_of", "checked_ilog", "checked_ilog2", "checked_ilog10"])
+MULS = ("strict_mul", "checked_mul", "wrapping_mul", "overflowing_mul", "saturating_mul", "mul")
+
+# input classes that are switched off until a crate-vs-spec disagreement they produce has been triaged (none so far)
+ENABLE_UNTRIAGED = False
 
 
 def ROUTE(line):
-    op = line.split(" ", 1)[0]
-    if C17_RE.match(op):
-        return "c17"
+    p = line.split(" ")
+    op, cfg = p[0], p[1][1:]
+    if OPERATOR_RE.match(op):
+        return "c17" if cfg in CFGS17 else "c04"
+    if len(p) > 2 and p[2] in ("dbg", "rel") and op in MODE_METHODS:
+        return "c04"
     if "next_power_of_two" in op:
         return "c06"
     if "pow" in op or "ilog" in op:
         return "c08"
-    if op in ("strict_mul", "checked_mul", "wrapping_mul", "overflowing_mul", "saturating_mul", "mul"):
+    if op in MULS:
         return "c02"
-    if "sh" in op and ("shl" in op or "shr" in op):
+    if "shl" in op or "shr" in op:
         return "c05"
     if "div" in op or "rem" in op or "next_multiple_of" in op:
         return "c03"
     return "c01"
 
 
-def boundary_pair(rng, w, n, signed, kind):
-    """operands whose exact add/sub result sits on either side of the representable range"""
-    W = w * n
+def _lim(W, signed):
     M = 1 << W
-    lo, hi = (-(M >> 1), (M >> 1) - 1) if signed else (0, M - 1)
-    a = rng.randrange(lo, hi + 1) if rng.random() < 0.5 else rng.choice([lo, hi, lo + 1, hi - 1, 0, -1 if signed else 1])
-    target = rng.choice([lo - 1, lo, lo + 1, hi - 1, hi, hi + 1])
-    b = target - a if kind == "add" else a - target
-    if lo <= b <= hi:
-        return "boundary", pat(a, W), pat(b, W)
+    return (-(M >> 1), (M >> 1) - 1) if signed else (0, M - 1)
+
+
+def _edge(rng, lo, hi):
+    """a value of [lo, hi]: its ends, zero / +-1 when inside, or uniform"""
+    c = [v for v in (lo, lo + 1, lo + 2, hi - 2, hi - 1, hi, 0, 1, -1, (lo + hi) // 2, (lo + hi) // 2 + 1) if lo <= v <= hi]
+    return rng.choice(c) if rng.random() < 0.5 else rng.randrange(lo, hi + 1)
+
+
+def boundary_pair(rng, w, n, sa, sb, kind):
+    """operands (a of signedness `sa`, b of signedness `sb`) whose exact sum (`add`) / difference (`sub`) sits on
+    either side of the range of a's type: lo-1, lo, lo+1, hi-1, hi, hi+1.  sa == sb: the operators and the plain
+    methods; sa != sb: add_signed / add_unsigned / sub_unsigned."""
+    W = w * n
+    lo, hi = _lim(W, sa)
+    blo, bhi = _lim(W, sb)
+    for _ in range(6):
+        target = rng.choice([lo - 1, lo, lo + 1, hi - 1, hi, hi + 1])
+        if rng.random() < 0.5:
+            a = _edge(rng, lo, hi)
+            b = target - a if kind == "add" else a - target
+        else:
+            b = _edge(rng, blo, bhi)
+            a = target - b if kind == "add" else target + b
+        if lo <= a <= hi and blo <= b <= bhi:
+            return "boundary", pat(a, W), pat(b, W)
     t, x, y = pair(rng, w, n)
     return t, x, y
 
 
+def unary_value(rng, w, n):
+    W = w * n
+    M = 1 << W
+    H = M >> 1
+    if rng.random() < 0.75:
+        return "unary-edge", rng.choice([H, H + 1, H - 1, M - 1, 0, 1, 2, M - 2, H + 2])
+    return value(rng, w, n)
+
+
+def amount(rng, ty, W):
+    """a shift amount of primitive type `ty`: both sides of 0 and of BITS; values whose `as u32` truncation
+    (release builds) is small although they are out of range themselves (2^32 + k, -2^32 + k, 2^64 + k, -k)"""
+    bits, signed = PRIM[ty]
+    lo, hi = (-(1 << (bits - 1)), (1 << (bits - 1)) - 1) if signed else (0, (1 << bits) - 1)
+    r = rng.randrange(W)
+    k = rng.choice([0, 1, W - 1, W, W + 1, 2 * W, 2 * W - 1, -1, -W, -r, lo, hi, lo + r, hi - r,
+                    (1 << 32) - 1, 1 << 32, (1 << 32) + r, (1 << 32) + W, (1 << 32) - W, -(1 << 32) + r, -(1 << 32),
+                    (1 << 64) + r, (3 << 32) + r, -(1 << 64) + r, (1 << 31) + r, -(1 << 31) + r,
+                    r, r, r, r, rng.randrange(W), rng.randrange(W)])
+    return max(lo, min(hi, k))
+
+
+def mul_edge(rng, w, n, sg):
+    """digit-aligned factors d1*B^i (+ low part), d2*B^j (+ low part) with i + j in {N-2, N-1, N}: the top partial
+    product lands on / just below / just beyond the most significant digit, with small and with extreme top digits
+    (the overflow test of a multiplication is about digit positions first, carries second)"""
+    W = w * n
+    B = 1 << w
+    i = rng.randrange(n)
+    j = max(0, min(n - 1, n - i - rng.choice([0, 1, 1, 2])))
+
+    def part(k):
+        d = rng.choice([1, 1, 2, 3, B // 2 - 1, B // 2, B - 1, rng.randrange(1, B)])
+        low = rng.choice([0, 0, (1 << (w * k)) - 1, rng.randrange(1 << (w * k))]) if k else 0
+        return (d << (w * k)) + low
+
+    a, b = part(i), part(j)
+    if sg:
+        a = a if rng.random() < 0.5 else -a
+        b = b if rng.random() < 0.5 else -b
+    return "mul-digit-edge", pat(a, W), pat(b, W)
+
+
+def nmo_pair(rng, w, n, sg):
+    """next_multiple_of: the multiple just beyond MAX (positive rhs), just below MIN (signed, negative rhs:
+    `self.sub(rem)`), zero rhs, and the division classes"""
+    W = w * n
+    M = 1 << W
+    H = M >> 1
+    c = rng.random()
+    t, a, b = div_pair(rng, w, n, sg)
+    small = rng.choice([2, 3, 5, 7, 10, (1 << w) - 1, (1 << w) + 1, rng.randrange(2, 1 << min(W - 1, 40)), rng.randrange(1, H)])
+    if small >= H:
+        small = 3
+    if c < 0.3:
+        a = pat((H if sg else M) - rng.randrange(1, 4), W)
+        t = "nmo-above-max"
+        if rng.random() < 0.5:
+            b = small
+    elif sg and c < 0.6:
+        a = pat(-H + rng.randrange(0, 4), W)
+        b = pat(-small, W)
+        t = "nmo-below-min"
+    elif sg and c < 0.7:
+        # negative self / negative rhs, all four sign combinations around a multiple
+        q = rng.randrange(-5, 6)
+        sb = rng.choice([small, -small])
+        a = pat(q * sb + rng.choice([-1, 0, 1]), W)
+        b = pat(sb, W)
+        t = "nmo-signs"
+    elif c < 0.75:
+        b = 0
+        t = "nmo-zero"
+    return t, a, b
+
+
+def ilog_case(rng, w, n, sg):
+    """ilog arguments: the classes of C08 plus (a) every kind of non-positive argument with every kind of base (powers
+    of two / of the digit radix, one- and multi-digit, near the limits), (b) every kind of base < 2 with every kind of
+    argument, (c) arguments at the top of the range with bases whose square / cube straddles the limit (the running
+    power inside `iilog` must not overflow: that would be a debug-only panic of checked_ilog)"""
+    W = w * n
+    M = 1 << W
+    lim = (M >> 1) if sg else M
+    B = 1 << w
+
+    def base():
+        k = rng.randrange(1, W)
+        return rng.choice([2, 3, 4, 7, 10, 16, B - 1, B, B + 1, 1 << k, (1 << k) - 1, B ** rng.randrange(1, n + 1), lim - 1, lim - 2,
+                           iroot(lim - 1, 2) + rng.choice([-1, 0, 1]), rng.randrange(2, lim), rng.randrange(2, 1 << min(W - 1, 40))]) % lim
+
+    r = rng.random()
+    if r < 0.15:
+        a = rng.choice([0, 0, M - 1, M >> 1, (M >> 1) + 1, pat(-rng.randrange(1, lim), W)]) if sg else 0
+        return "ilog-nonpositive", a, max(2, base()) % M
+    if r < 0.3:
+        b = rng.choice([0, 1, M - 1, M >> 1, M - 2]) if sg else rng.choice([0, 1])
+        a = rng.choice([0, 1, 2, lim - 1, value(rng, w, n)[1] % lim])
+        return "ilog-badbase", a, b
+    if r < 0.5:
+        a = lim - 1 - rng.choice([0, 0, 1, 2, rng.randrange(1 << (W // 2))])
+        j = rng.choice([2, 2, 3, 4])
+        rt = iroot(lim - 1, j)
+        b = rng.choice([max(2, rt + rng.choice([-1, 0, 0, 1, 2])), max(2, base())])
+        return "ilog-top", a % M, b % lim
+    return log_case(rng, w, n, sg)
+
+
+def cases(rng, cfg, s, mode):
+    """one round of requests for configuration `cfg`, signedness letter `s`, build mode word `mode`"""
+    w, n = wn(cfg)
+    W = w * n
+    M = 1 << W
+    H = M >> 1
+    sg = s == "i"
+    in17 = cfg in CFGS17
+    c = f"{s}{cfg}"
+
+    def meth(op, args):
+        # a method whose model takes `dbg` although its answer does not depend on it: with the profile word where
+        # the c04 bin has the configuration (the other build answers `skip`), without it on the c17 configurations
+        return f"{op} {c} {args}" if in17 else f"{op} {c} {mode} {args}"
+
+    # ---- operators + - and the whole add / sub family on the same boundary operands
+    for op in ("add", "sub"):
+        t, a, b = boundary_pair(rng, w, n, sg, sg, op)
+        ab = f"{hx(a)} {hx(b)}"
+        yield f"{op}_{rng.choice(FORMS)} {c} {mode} {ab}", t
+        for p in ("strict", "checked", "wrapping", "overflowing", "saturating"):
+            yield f"{p}_{op} {c} {ab}", t
+    # ---- mixed-sign forms: BUint::*_add_signed, BInt::*_add_unsigned / *_sub_unsigned
+    for name, kind in ((("add_unsigned", "add"), ("sub_unsigned", "sub")) if sg else (("add_signed", "add"),)):
+        t, a, b = boundary_pair(rng, w, n, sg, not sg, kind)
+        for p in ("strict", "checked", "wrapping", "overflowing", "saturating"):
+            yield f"{p}_{name} {c} {hx(a)} {hx(b)}", "mixed-" + t
+    # ---- *
+    t, a, b = mul_edge(rng, w, n, sg) if rng.random() < 0.35 else mul_pair(rng, w, n, sg)
+    ab = f"{hx(a)} {hx(b)}"
+    yield f"mul_{rng.choice(FORMS)} {c} {mode} {ab}", t
+    yield f"mul {c} {mode} {ab}", t
+    for p in ("strict", "checked", "wrapping", "overflowing", "saturating"):
+        yield f"{p}_mul {c} {ab}", t
+    # ---- / % : zero divisor, MIN / -1, MIN % -1
+    for op in ("div", "rem"):
+        t, a, b = div_pair(rng, w, n, sg)
+        r = rng.random()
+        if r < 0.25:
+            b, t = 0, "zero-divisor"
+        elif sg and r < 0.5:
+            a, b, t = H, M - 1, "min/-1"
+        elif sg and r < 0.6:
+            a, b, t = rng.choice([H, H + 1, H - 1, M - 1, 1]), rng.choice([M - 1, 1, M - 2, H]), "near-min/-1"
+        ab = f"{hx(a)} {hx(b)}"
+        yield f"{op}_{rng.choice(FORMS)} {c} {mode} {ab}", t
+        for f in (op, f"{op}_euclid", f"strict_{op}", f"strict_{op}_euclid", f"checked_{op}", f"checked_{op}_euclid",
+                  f"wrapping_{op}", f"wrapping_{op}_euclid", f"overflowing_{op}", f"overflowing_{op}_euclid"):
+            yield meth(f, ab), t
+        if op == "div":
+            yield meth("saturating_div", ab), t
+    # ---- unary - , abs, and the neg / abs families
+    t, a = unary_value(rng, w, n)
+    if sg:
+        yield f"neg_{rng.choice(['v', 'r', 'inh'])} {c} {mode} {hx(a)}", t
+        yield f"abs {c} {mode} {hx(a)}", t
+        for p in ("strict", "checked", "wrapping", "overflowing", "saturating"):
+            yield f"{p}_neg {c} {hx(a)}", t
+            yield f"{p}_abs {c} {hx(a)}", t
+    else:
+        for p in ("strict", "checked", "wrapping", "overflowing"):
+            yield f"{p}_neg {c} {hx(a)}", t
+    # ---- << >> with every primitive amount type, every form the answering bin has
+    for ty in PRIM:
+        sh = rng.choice(["shl", "shr"])
+        t, a = value(rng, w, n)
+        k = amount(rng, ty, W)
+        yield f"{sh}_{ty}_{rng.choice(SFORMS if in17 else SFORMS04)} {c} {mode} {hx(a)} {k}", "amount"
+    t, a = value(rng, w, n)
+    k = rng.choice([0, 1, W - 1, W, W + 1, 2 * W, (1 << 32) - 1, (1 << 32) - W, 1 << 31, rng.randrange(W), rng.randrange(W)])
+    for sh in ("shl", "shr"):
+        yield f"{sh}_u32_inh {c} {mode} {hx(a)} {k}", "amount"
+        yield f"{sh} {c} {mode} {hx(a)} {k}", "amount"
+        for p in ("strict", "checked", "wrapping", "overflowing"):
+            yield f"{p}_{sh} {c} {hx(a)} {k}", "amount"
+    # ---- pow
+    t, a, e = pow_case(rng, w, n, sg)
+    yield f"pow {c} {mode} {hx(a)} {e}", t
+    for p in ("strict", "checked", "wrapping", "overflowing", "saturating"):
+        yield f"{p}_pow {c} {hx(a)} {e}", t
+    # ---- ilog family
+    t, a, b = ilog_case(rng, w, n, sg)
+    yield f"ilog {c} {mode} {hx(a)} {hx(b)}", t
+    yield f"ilog2 {c} {mode} {hx(a)}", t
+    yield f"ilog10 {c} {mode} {hx(a)}", t
+    yield meth("checked_ilog", f"{hx(a)} {hx(b)}"), t
+    yield meth("checked_ilog2", hx(a)), t
+    yield meth("checked_ilog10", hx(a)), t
+    # ---- next_multiple_of
+    t, a, b = nmo_pair(rng, w, n, sg)
+    yield f"next_multiple_of {c} {mode} {hx(a)} {hx(b)}", t
+    yield meth("checked_next_multiple_of", f"{hx(a)} {hx(b)}"), t
+    # ---- next_power_of_two family
+    if not sg:
+        a = rng.choice([0, 1, 2, 3, H - 1, H, H + 1, M - 1, (1 << rng.randrange(W)) + rng.choice([-1, 0, 1]), value(rng, w, n)[1]]) % M
+        yield f"next_power_of_two {c} {mode} {hx(a)}", "npot"
+        yield f"checked_next_power_of_two {c} {hx(a)}", "npot"
+        yield f"wrapping_next_power_of_two {c} {hx(a)}", "npot"
+
+
+def huge_cases(rng, cfg, s, mode):
+    """8192 bits: the same classes as `cases`, without the requests whose model evaluation is slow at 1024 digits
+    (general pow / ilog / division by long divisors are C08's / C03's dense requests; here: the panic boundaries)"""
+    w, n = wn(cfg)
+    W = w * n
+    M = 1 << W
+    H = M >> 1
+    sg = s == "i"
+    c = f"{s}{cfg}"
+    for op in ("add", "sub"):
+        t, a, b = boundary_pair(rng, w, n, sg, sg, op)
+        ab = f"{hx(a)} {hx(b)}"
+        yield f"{op}_{rng.choice(FORMS)} {c} {mode} {ab}", "huge-" + t
+        p = rng.choice(["strict", "checked", "wrapping", "overflowing", "saturating"])
+        yield f"{p}_{op} {c} {ab}", "huge-" + t
+    for name, kind in ((("add_unsigned", "add"), ("sub_unsigned", "sub")) if sg else (("add_signed", "add"),)):
+        t, a, b = boundary_pair(rng, w, n, sg, not sg, kind)
+        p = rng.choice(["strict", "checked", "wrapping", "overflowing", "saturating"])
+        yield f"{p}_{name} {c} {hx(a)} {hx(b)}", "huge-mixed-" + t
+    # products straddling the limit: 2^i * 2^j, (2^i - 1)(2^j + 1), MIN * -1
+    i = rng.randrange(W)
+    j = rng.choice([W - i - 2, W - i - 1, W - i]) % W
+    a, b = rng.choice([(1 << i, 1 << j), ((1 << i) - 1, (1 << j) + 1), (H, M - 1), (M - 1, H), (pat(-(1 << i), W), 1 << j),
+                       mul_edge(rng, w, n, sg)[1:], mul_edge(rng, w, n, sg)[1:]])
+    ab = f"{hx(a % M)} {hx(b % M)}"
+    yield f"mul_{rng.choice(FORMS)} {c} {mode} {ab}", "huge-mul"
+    yield f"{rng.choice(['strict', 'checked', 'wrapping', 'overflowing', 'saturating'])}_mul {c} {ab}", "huge-mul"
+    for op in ("div", "rem"):
+        r = rng.random()
+        a = rng.choice([H, H + 1, M - 1, rng.randrange(M)])
+        b = 0 if r < 0.3 else (M - 1 if r < 0.7 else rng.choice([1, 2, (1 << w) - 1, H, M - 2]))
+        ab = f"{hx(a)} {hx(b)}"
+        yield f"{op}_{rng.choice(FORMS)} {c} {mode} {ab}", "huge-div"
+        p = rng.choice(["", "strict_", "checked_", "wrapping_", "overflowing_"])
+        yield f"{p}{op}{rng.choice(['', '_euclid'])} {c} {mode} {ab}", "huge-div"
+    t, a = unary_value(rng, w, n)
+    if sg:
+        yield f"neg_{rng.choice(['v', 'r', 'inh'])} {c} {mode} {hx(a)}", "huge-unary"
+        yield f"abs {c} {mode} {hx(a)}", "huge-unary"
+        p = rng.choice(["strict", "checked", "wrapping", "overflowing", "saturating"])
+        yield f"{p}_neg {c} {hx(a)}", "huge-unary"
+        yield f"{p}_abs {c} {hx(a)}", "huge-unary"
+    else:
+        yield f"{rng.choice(['strict', 'checked', 'wrapping', 'overflowing'])}_neg {c} {hx(a)}", "huge-unary"
+    # at 8192 bits every u8 / i8 amount is in range and BITS itself needs 14 bits
+    for ty in PRIM:
+        for sh in ("shl", "shr"):
+            a = rng.choice([1, M - 1, H, H - 1, rng.randrange(M)])
+            yield f"{sh}_{ty}_{rng.choice(SFORMS04)} {c} {mode} {hx(a)} {amount(rng, ty, W)}", "huge-amount"
+    k = rng.choice([0, W - 1, W, W + 1, 255, 256, 65535, 65536, (1 << 32) - 1, rng.randrange(W)])
+    sh = rng.choice(["shl", "shr"])
+    yield f"{sh}_u32_inh {c} {mode} {hx(a)} {k}", "huge-amount"
+    yield f"{sh} {c} {mode} {hx(a)} {k}", "huge-amount"
+    yield f"{rng.choice(['strict', 'checked', 'wrapping', 'overflowing'])}_{sh} {c} {hx(a)} {k}", "huge-amount"
+    # powers of +-2^k around the limit with a small exponent (a 1024-digit model multiplication takes ~0.1 s: the
+    # dense / long-exponent cases at this width are C08's)
+    k = rng.choice([W // 2, W // 2 - 1, W // 3, W // 4 + 1, W // 5, W - 1])
+    e = rng.choice([(W - 1) // k, (W - 1) // k + 1, W // k, W // k + 1, max(0, (W - 1) // k - 1)])
+    a = pat(-(1 << k), W) if sg and rng.random() < 0.5 else 1 << k
+    p = rng.choice(["", "", "strict_", "checked_", "wrapping_", "overflowing_", "saturating_"])
+    yield (f"{p}pow {c} {hx(a)} {e}" if p else f"pow {c} {mode} {hx(a)} {e}"), "huge-pow"
+    a = rng.choice([0, 1, M - 1, H, H - 1, 1 << rng.randrange(W), rng.randrange(M)])
+    yield f"ilog2 {c} {mode} {hx(a)}", "huge-ilog"
+    yield f"checked_ilog2 {c} {mode} {hx(a)}", "huge-ilog"
+    yield f"ilog {c} {mode} {hx(a)} {hx(rng.choice([0, 1, M - 1, H]))}", "huge-ilog-badbase"
+    # next_multiple_of just beyond MAX / below MIN with a one-digit rhs
+    d = rng.choice([2, 3, 7, (1 << w) - 1])
+    if sg and rng.random() < 0.5:
+        a, b = pat(-H + rng.randrange(0, 3), W), pat(-d, W)
+    else:
+        a, b = pat((H if sg else M) - rng.randrange(1, 3), W), d
+    yield f"next_multiple_of {c} {mode} {hx(a)} {hx(b)}", "huge-nmo"
+    yield f"checked_next_multiple_of {c} {mode} {hx(a)} {hx(b)}", "huge-nmo"
+    if not sg:
+        a = rng.choice([H - 1, H, H + 1, M - 1, (1 << rng.randrange(W)) + 1])
+        yield f"next_power_of_two {c} {mode} {hx(a)}", "huge-npot"
+        yield f"{rng.choice(['checked', 'wrapping'])}_next_power_of_two {c} {hx(a)}", "huge-npot"
+
+
+def config_list(tier):
+    base = list(QUICK_CFGS) + [c for c in QUICK17 if c not in QUICK_CFGS]
+    if tier == "thorough":
+        base = list(THOROUGH_CFGS) + [c for c in CFGS17 if c not in THOROUGH_CFGS]
+    return [c for c in base if c not in HUGE_CFGS]
+
+
 def gen(rng, tier):
-    reps = 30 if tier == "thorough" else 12
-    for cfg in (CFGS17 if tier == "thorough" else QUICK17):
+    for cfg in config_list(tier):
         w, n = wn(cfg)
         W = w * n
-        M = 1 << W
+        if tier == "thorough":
+            reps = 48 if W <= 256 else 24 if W <= 1024 else 8
+        else:
+            reps = 6 if W <= 256 else 4 if W <= 1024 else 2
         for _ in range(reps):
             for s in "ui":
-                sg = s == "i"
                 for mode in ("dbg", "rel"):
-                    # operators + - * / % and unary -
-                    for op, kind in (("add", "add"), ("sub", "sub")):
-                        t, a, b = boundary_pair(rng, w, n, sg, kind)
-                        yield f"{op}_vv {s}{cfg} {mode} {hx(a)} {hx(b)}", t
-                        yield f"{op}_as {s}{cfg} {mode} {hx(a)} {hx(b)}", t
-                        yield f"strict_{op} {s}{cfg} {hx(a)} {hx(b)}", t
-                        yield f"checked_{op} {s}{cfg} {hx(a)} {hx(b)}", t
-                    t, a, b = mul_pair(rng, w, n, sg)
-                    yield f"mul_vv {s}{cfg} {mode} {hx(a)} {hx(b)}", t
-                    yield f"mul {s}{cfg} {mode} {hx(a)} {hx(b)}", t
-                    yield f"strict_mul {s}{cfg} {hx(a)} {hx(b)}", t
-                    yield f"checked_mul {s}{cfg} {hx(a)} {hx(b)}", t
-                    for op in ("div", "rem"):
-                        t, a, b = div_pair(rng, w, n, sg)
-                        if rng.random() < 0.3:
-                            b = 0
-                        if sg and rng.random() < 0.3:
-                            a, b = M >> 1, M - 1
-                        yield f"{op}_vv {s}{cfg} {mode} {hx(a)} {hx(b)}", t
-                        for f in (op, f"{op}_euclid", f"strict_{op}", f"strict_{op}_euclid", f"checked_{op}", f"checked_{op}_euclid", f"wrapping_{op}", f"wrapping_{op}_euclid",
-                                  f"overflowing_{op}", f"overflowing_{op}_euclid"):
-                            yield f"{f} {s}{cfg} {hx(a)} {hx(b)}", t
-                        if op == "div":
-                            yield f"saturating_div {s}{cfg} {hx(a)} {hx(b)}", t
-                    if sg:
-                        a = rng.choice([M >> 1, (M >> 1) + 1, (M >> 1) - 1, M - 1, 0, 1, value(rng, w, n)[1]])
-                        yield f"neg_v i{cfg} {mode} {hx(a)}", "neg"
-                        yield f"abs i{cfg} {mode} {hx(a)}", "abs"
-                        yield f"strict_neg i{cfg} {hx(a)}", "neg"
-                        yield f"strict_abs i{cfg} {hx(a)}", "abs"
-                        yield f"checked_neg i{cfg} {hx(a)}", "neg"
-                        yield f"checked_abs i{cfg} {hx(a)}", "abs"
-                    # shifts with every primitive amount type
-                    for ty in PRIM:
-                        sh = rng.choice(["shl", "shr"])
-                        t, a = value(rng, w, n)
-                        k = prim_amount(rng, ty, W)
-                        yield f"{sh}_{ty}_vv {s}{cfg} {mode} {hx(a)} {k}", "amount"
-                    t, a = value(rng, w, n)
-                    k = rng.choice([0, W - 1, W, W + 1, (1 << 32) - 1, rng.randrange(W)])
-                    for sh in ("shl", "shr"):
-                        yield f"strict_{sh} {s}{cfg} {hx(a)} {k}", "amount"
-                        yield f"checked_{sh} {s}{cfg} {hx(a)} {k}", "amount"
-                        yield f"wrapping_{sh} {s}{cfg} {hx(a)} {k}", "amount"
-                        yield f"overflowing_{sh} {s}{cfg} {hx(a)} {k}", "amount"
-                    # unsuffixed methods
-                    t, a, e = pow_case(rng, w, n, sg)
-                    yield f"pow {s}{cfg} {mode} {hx(a)} {e}", t
-                    yield f"strict_pow {s}{cfg} {hx(a)} {e}", t
-                    yield f"checked_pow {s}{cfg} {hx(a)} {e}", t
-                    t, a, b = log_case(rng, w, n, sg)
-                    yield f"ilog {s}{cfg} {mode} {hx(a)} {hx(b)}", t
-                    yield f"ilog2 {s}{cfg} {mode} {hx(a)}", t
-                    yield f"ilog10 {s}{cfg} {mode} {hx(a)}", t
-                    yield f"checked_ilog {s}{cfg} {hx(a)} {hx(b)}", t
-                    yield f"checked_ilog2 {s}{cfg} {hx(a)}", t
-                    yield f"checked_ilog10 {s}{cfg} {hx(a)}", t
-                    t, a, b = div_pair(rng, w, n, sg)
-                    if rng.random() < 0.5:
-                        # multiple just beyond the range
-                        a = pat(((M >> 1) if sg else M) - rng.randrange(1, 4), W)
-                    yield f"next_multiple_of {s}{cfg} {mode} {hx(a)} {hx(b)}", t
-                    yield f"checked_next_multiple_of {s}{cfg} {hx(a)} {hx(b)}", t
-                    if not sg:
-                        a = rng.choice([0, 1, (M >> 1) - 1, M >> 1, (M >> 1) + 1, M - 1, value(rng, w, n)[1]])
-                        yield f"next_power_of_two u{cfg} {mode} {hx(a)}", "npot"
-                        yield f"checked_next_power_of_two u{cfg} {hx(a)}", "npot"
-                        yield f"wrapping_next_power_of_two u{cfg} {hx(a)}", "npot"
+                    yield from cases(rng, cfg, s, mode)
+    for cfg in HUGE_CFGS:
+        for _ in range(10 if tier == "thorough" else 2):
+            for s in "ui":
+                for mode in ("dbg", "rel"):
+                    yield from huge_cases(rng, cfg, s, mode)
